@@ -749,6 +749,8 @@ def draw_config(ch, rng, nmodes, cfgname, domain_hint, allow_srs):
         cs.needs = needs
         cs.fn = fn
         base_rows = 1 + ch.draw(4, "rows")
+        if DEEP[0]:
+            base_rows = 4 + ch.draw(9, "rows_deep")
         cs.V = {}
         quant = ch.flip(1, 3, "quantT")
 
@@ -866,12 +868,21 @@ class Event:
     pass
 
 
+DEEP = [False]  # one campaign in a hundred uses larger bounds (see scenario_campaign)
+
+
 def scenario_campaign(ch, tr, st):
     M = modules()
     cla = M.cla
     rng = ch.data_rng()
+    # deep campaign: 3-6 events, 4-9 cases each, up to 12 rows, 50-200 abscissa points, 200 operations
+    DEEP[0] = ch.flip(1, 100, "deep_run")
+    if DEEP[0]:
+        st.fault("deep_run")
     mod = draw_modal(ch, rng)
     nev = 1 + ch.weighted([2, 3, 3, 2], "nevents")
+    if DEEP[0]:
+        nev = 3 + ch.draw(4, "nevents_deep")
     domain_mix = ch.weighted([5, 3, 3, 3], "domain_mix")  # all time / all frf / mixed / all psd
     two_cfg = ch.flip(1, 3, "label_mismatch_cfg")
     faults_on = ch.flip(3, 4, "faults_on")
@@ -935,6 +946,8 @@ def scenario_campaign(ch, tr, st):
         ev.cats = cfgs[ev.cfg]
         ev.DR = DRs[ev.cfg]
         ev.n = 1 + ch.weighted([2, 3, 3, 2, 1], "ncases")
+        if DEEP[0]:
+            ev.n = 4 + ch.draw(6, "ncases_deep")
         ev.jorder = ch.perm(ev.n, "jperm") if jperm_on else list(range(ev.n))
         ev.done = []  # list of (j, casename)
         ev.h = h / 2 if (e > 0 and ch.flip(1, 3, "event_own_step")) else h  # events need not share a time step
@@ -1004,7 +1017,7 @@ def scenario_campaign(ch, tr, st):
     top = None
     top_sig = None
     steps = 0
-    max_ops = 60
+    max_ops = 200 if DEEP[0] else 60
     fs = SimFS()
     st.fs = fs
     crash_on = ch.flip(1, 3, "crash_on")
@@ -1102,7 +1115,7 @@ def _draw_sol(ch, rng, mod, ev, h, nan_on, ties_on):
     quant = ties_on and ch.flip(2, 3, "quant_case")
     if ev.domain == "time":
         if ev.xfixed is None:
-            ev.xfixed = np.arange(3 + ch.draw(20, "nt")) * h
+            ev.xfixed = np.arange((50 + ch.draw(150, "nt_deep")) if DEEP[0] else (3 + ch.draw(20, "nt"))) * h
         x = ev.xfixed
         nt = len(x)
 
@@ -1820,6 +1833,7 @@ def op_calc_ext(M, ch, tr, st, ev):
 
 
 def run(ch, tr, st):
+    DEEP[0] = False
     kind = ch.weighted([6, 2, 2, 2], "scenario")
     with np.errstate(all="ignore"):
         if kind == 0:
@@ -1868,5 +1882,5 @@ ASSUMPTIONS = [
 EXPECTED_FAULTS = [
     "psd_domain", "clock_jump_backwards", "clock_jump_forwards", "external_maxmin", "merge_rename", "mixed_abscissa", "model_varies_between_events", "zero_force_psd_row", "nan_cells", "ties", "ties_quantised", "one_column_ext", "label_mismatch", "j_out_of_order", "interleaved_events", "view_drfunc",
     "cache_reuse", "cache_reuse_repeat_uf", "stale_extreme_rebuild", "shared_DR_Event", "envelope_multi_event", "split_merge", "calc_ext",
-    "integer_table", "inf_cells", "mixed_depth_tree", "merge_of_merged_results", "force_trimming", "psd_all_solved_before_recovery", "checkpoint_saved", "crash_restart_from_checkpoint", "crash_restart_from_scratch", "crash_lost_cases_redone", "summary_copy", "summary_copy_stripped",
+    "deep_run", "integer_table", "inf_cells", "mixed_depth_tree", "merge_of_merged_results", "force_trimming", "psd_all_solved_before_recovery", "checkpoint_saved", "crash_restart_from_checkpoint", "crash_restart_from_scratch", "crash_lost_cases_redone", "summary_copy", "summary_copy_stripped",
 ]
